@@ -72,6 +72,9 @@ def units(tier, seed):
     for sep in OTHER_SEPARATORS:
         for ch in chunks(small, 2):
             us.append({"tier": tier, "seed": seed, "Ts": ch, "sep": sep})
+    # CURIE delimiters that are special to string formatting, for |T| <= 2
+    for ch in chunks(small, 4):
+        us.append({"tier": tier, "seed": seed, "Ts": ch, "delims": ["%", "%3A", "%%", "{}", "%s"]})
     return us
 
 
@@ -224,6 +227,10 @@ def run_case(case, ctx=None):
                             ctx.count("longest_is_not_first_inserted")
         for u in P[:40]:
             legacy_form(base, model, u, fails, where)
+        # strings with leading / trailing whitespace are ordinary strings: no trimming anywhere
+        for up in sorted(model.all_uri_prefixes()):
+            for u in (" " + up + "1", up + "1 ", up + " ", "\t" + up, up + "1\n", "\u00a0" + up + "z", up + "\u3000"):
+                check_query(base, model, u, fails, where)
         if ctx is not None:
             ctx.count("evaluations", len(Q) * 3 + 40)
             ctx.count("queries_with_2plus_matching_prefixes", nmulti)
@@ -285,7 +292,7 @@ def run_unit(unit, ctx):
         if sep:
             T = [t.replace(":", sep) for t in T]
         for recs in shapes_for(T):
-            for delim in DELIMS:
+            for delim in unit.get("delims", DELIMS):
                 case = {"recs": recs_to_json(recs), "delim": delim, "tier": unit["tier"]}
                 if sep:
                     case["sep"] = sep
